@@ -204,7 +204,7 @@ func runC15(c *CaseCtx) {
 func init() {
 	register(&Check{
 		ID: "C15", Level: "exploration", LeakClass: "merge-handles",
-		NCases: func(t string) int { return tier(t, 240, 9000) },
+		NCases: func(t string) int { return tier(t, 240, 20000) },
 		Run:    runC15,
 		Rule: "case = seeded history (KV with TTL/deletes, or sets, or sorted sets, or lists, or KV+sets+sorted sets mixed; failing and oversized transactions whose uncommitted records stay in the log; SegmentSize 96-400 so that 5-30 files take part) with Merge called with <2 files, after the first phase, twice in a row, and again after a reopen; " +
 			"the full observation must equal the reference model immediately before and after each Merge (success or error), after later writes, and after each reopen; B+ tree / skip-list walkers after each Merge; one scenario class per structure kind; non-trivial = at least one successful Merge; distinct by history hash",
